@@ -4,8 +4,9 @@
 EXTENDS MetaObs, TraceBase
 
 VARIABLES ph,    \* 0: apply the next event's action; 1: compare the state reached with the event
-          stmts  \* rows the loader has accepted so far (C18: one loader, several builds)
-TInit == Init /\ TBaseInit /\ ph = 0 /\ stmts = <<>>
+          stmts, \* rows the loader has accepted so far (C18: one loader, several builds)
+          lastpeek  \* what peek() of the metamodel's id generator showed after the previous event ("" = not recorded)
+TInit == Init /\ TBaseInit /\ ph = 0 /\ stmts = <<>> /\ lastpeek = ""
 
 KwOf(e) == [n \in (DOMAIN e.kw) \ {"_"} |-> e.kw[n]]
 G2(e) == IF e.g >= 0 THEN e.g ELSE gen + Len(IdSlots(e.c))
@@ -145,8 +146,12 @@ SchemaOK(e) ==
 
 \* after the rejected creation of an instance with an attribute of unknown type only
 \* the outcome is fixed by the property (the trace ends there)
+\* A metamodel's id generator is its own: what peek() shows changes only through calls that draw ids from it.
+DrawsIds(e) == e.op \in {"New", "NewRow", "NewUnknown", "BuildFocus", "LoadBuild", "SaveLoad", "GenNext", "Adopt"}
+PeekOK(e) == "peek" \notin DOMAIN e \/ lastpeek = "" \/ DrawsIds(e) \/ e.peek = lastpeek
 Conform(e) == IF e.op = "NewUnknown" \/ "nocheck" \in DOMAIN e THEN (IF res = e.res THEN "" ELSE "res") ELSE FirstBad(<<
     <<"res", ResOK(e)>>,
+    <<"generator", PeekOK(e)>>,
     <<"observable", e.oerr = "">>,
     <<"pool", ProjPool = e.pool>>,
     <<"nav", ProjNav = e.nav>>,
@@ -162,12 +167,14 @@ Conform(e) == IF e.op = "NewUnknown" \/ "nocheck" \in DOMAIN e THEN (IF res = e.
 Apply == /\ ph = 0 /\ TEnabled
          /\ Step(Ev)
          /\ stmts' = IF Ev.op = "Input" THEN stmts \o Ev.rows ELSE stmts
+         /\ UNCHANGED lastpeek
          /\ IF res' = "OutOfDomain"
             THEN ph' = 0 /\ l' = TLen + 1 /\ tid' = tid /\ bad' = "" /\ PrintT(<<"DONE", tid>>)
             ELSE IF Admissible(Ev) THEN ph' = 1 /\ UNCHANGED tvars
                  ELSE ph' = 0 /\ Advance("admissible", <<>>)
 
 Check == /\ ph = 1 /\ UNCHANGED <<vars, stmts>> /\ ph' = 0
+         /\ lastpeek' = IF "peek" \in DOMAIN Ev /\ "nocheck" \notin DOMAIN Ev THEN Ev.peek ELSE lastpeek
          /\ LET b == Conform(Ev) IN
             Advance(b, IF b = "query" THEN FirstBadObs(Ev) ELSE <<res, ProjPool, ProjNav, ProjAttr>>)
 
